@@ -3,6 +3,7 @@ package checks
 import (
 	"encoding/json"
 	"fmt"
+	"io"
 	"net/http"
 	"strings"
 	"time"
@@ -25,11 +26,18 @@ func (s *rwSpy) Write(b []byte) (int, error) {
 	return len(b), nil
 }
 
+// WriteString makes the spy an io.StringWriter, as net/http's and httptest's writers are: a string written
+// through io.WriteString may reach it by this door, and is a body write like any other.
+func (s *rwSpy) WriteString(str string) (int, error) {
+	s.log = append(s.log, "B"+str)
+	return len(str), nil
+}
+
 type rwSpyFlusher struct{ rwSpy }
 
 func (s *rwSpyFlusher) Flush() { s.log = append(s.log, "F") }
 
-var c13OpNames = []string{"WriteHeader(201)", "WriteHeader(404)", `Write("ab")`, `Write("")`, "Flush", "Before(h1)", "Before(h2:sets-header)", `Write("c")`, "Before(h3:registers-another-hook-when-it-runs)"}
+var c13OpNames = []string{"WriteHeader(201)", "WriteHeader(404)", `Write("ab")`, `Write("")`, "Flush", "Before(h1)", "Before(h2:sets-header)", `io.WriteString("c")`, "Before(h3:registers-another-hook-when-it-runs)"}
 
 // the boring model, written from the statement
 type rwModel struct {
@@ -166,7 +174,7 @@ func c13Exec(method string, flusher bool, ops []int) (key string, bad string) {
 			w.Before(mkHook(2))
 			m.hooks = append(m.hooks, 2)
 		case 7:
-			gotN, _ = w.Write([]byte("c"))
+			gotN, _ = io.WriteString(w, "c") // a body write through io.WriteString
 			wantN = m.write("c")
 		case 8:
 			w.Before(mkHook(3))
@@ -243,7 +251,7 @@ func c13Run(r *core.Run) {
 		depth, treeDepth = 9, 7
 		r.SetBudget(9 * time.Minute)
 	}
-	r.Rule = "engine B: BFS over histories of {WriteHeader(201),WriteHeader(404),Write(ab),Write(''),Flush,Before(h1),Before(h2),Write(c),Before(h3 that registers a further hook when it runs)} replayed on a fresh flamego.NewResponseWriter over a spy; state key = (status,size,pending hooks,what the spy received,hook observations); model+invariants compared after every transition; plus a status sweep (every status 100..999 in place of 201 in all short sequences, compared step by step); non-trivial = transition taken when a status had already been sent or a hook was pending (the cases where 'once' logic matters)"
+	r.Rule = "engine B: BFS over histories of {WriteHeader(201),WriteHeader(404),Write(ab),Write(''),Flush,Before(h1),Before(h2),io.WriteString(c),Before(h3 that registers a further hook when it runs)} replayed on a fresh flamego.NewResponseWriter over a spy; state key = (status,size,pending hooks,what the spy received,hook observations); model+invariants compared after every transition; plus a status sweep (every status 100..999 in place of 201 in all short sequences, compared step by step); non-trivial = transition taken when a status had already been sent or a hook was pending (the cases where 'once' logic matters)"
 	r.Bounds["bfs_depth"] = depth
 	r.Bounds["undeduplicated_tree_depth"] = treeDepth
 	r.Bounds["methods"] = []string{"GET", "HEAD", "POST"}
